@@ -434,6 +434,7 @@ def _finish(new, calls, ev, rng, mid_apply=0.0):
 
 
 def chain_mut(ctx, client, counter, no=None):
+    systematic = no is not None
     if no is None:
         no = (counter * P2) % len(MUT_SPACE)
     fam, k, mut = MUT_SPACE[no]
@@ -447,7 +448,14 @@ def chain_mut(ctx, client, counter, no=None):
     if built is None:
         return None, None
     new, calls, ev = built
-    return _finish(new, _mutate(calls, mut), ev, ctx.rng), f"mut:{no}"
+    calls = _mutate(calls, mut)
+    tag = f"mut:{no}"
+    if not systematic and len(calls) >= 2 and ctx.rng.random() < 0.35:
+        # a second slip on top of the first one (a call dropped AND two calls swapped, ...)
+        kind2 = ctx.rng.choice(["del", "dup", "swap"])
+        calls = _mutate(calls, (kind2, ctx.rng.randrange(len(calls) - (1 if kind2 == "swap" else 0))))
+        tag = None
+    return _finish(new, calls, ev, ctx.rng), tag
 
 
 def _tok_call(ctx, obj, fam, tok, names, aid):
